@@ -2,7 +2,8 @@
 From SC Require Import Lib.Prelude Lib.Int Lib.Host Model.Timelock Model.TimelockGhost Model.TimelockController.
 
 (* ---------------- observations ---------------- *)
-Record opview := OV9 { v_ledger : Z; v_state : opstate; v_exists : bool; v_pending : bool; v_ready : bool; v_done : bool }.
+(* [v_trap]: some getter of this id trapped (then the other fields are placeholders) *)
+Record opview := OV9 { v_ledger : Z; v_state : opstate; v_exists : bool; v_pending : bool; v_ready : bool; v_done : bool; v_trap : bool }.
 (* after every call: ledger, get_min_delay, the timelock getters for every id, get_admin,
    has_role for every (account, role), get_role_member_count / get_role_member / get_role_admin
    for every role, get_existing_roles, the target mock's counters *)
@@ -31,7 +32,8 @@ Definition outcome_eqb (a b : outcome) : bool :=
   match a, b with Ok x, Ok y => on_eqb x y | Fail, Fail => true | _, _ => false end.
 Definition opview_eqb (a b : opview) : bool :=
   (v_ledger a =? v_ledger b) && opstate_eqb (v_state a) (v_state b) && Bool.eqb (v_exists a) (v_exists b)
-  && Bool.eqb (v_pending a) (v_pending b) && Bool.eqb (v_ready a) (v_ready b) && Bool.eqb (v_done a) (v_done b).
+  && Bool.eqb (v_pending a) (v_pending b) && Bool.eqb (v_ready a) (v_ready b) && Bool.eqb (v_done a) (v_done b)
+  && Bool.eqb (v_trap a) (v_trap b).
 Fixpoint list_eqb {A} (f : A -> A -> bool) (a b : list A) : bool :=
   match a, b with
   | [], [] => true
@@ -89,7 +91,7 @@ Definition avs_ok (t : list (argv * N)) : bool :=
 (* ---------------- what the model shows ---------------- *)
 Definition view (t : tl) (i : id) : opview :=
   OV9 (mark t i) (state_of t i) (operation_exists t i) (is_operation_pending t i)
-      (is_operation_ready t i) (is_operation_done t i).
+      (is_operation_ready t i) (is_operation_done t i) false.
 Fixpoint nseq (k : nat) (from : N) : list N :=
   match k with O => [] | S k' => from :: nseq k' (N.succ from) end.
 Definition upto (n : N) : list N := nseq (N.to_nat n) 1%N.
@@ -142,7 +144,7 @@ Definition diff (t : trace) : N := diff_events (fst t) (snd t).
 (* ---------------- the monitor: the property over observations only ---------------- *)
 
 Definition view_coherent (now : Z) (v : opview) : bool :=
-  in_u32 (v_ledger v)
+  negb (v_trap v) && in_u32 (v_ledger v)
   && opstate_eqb (v_state v)
        (if v_ledger v =? 0 then Unset else if v_ledger v =? 1 then Done
         else if now <? v_ledger v then Waiting else Ready)
@@ -166,8 +168,46 @@ Definition ob_has_or (dflt : bool) (o : obs) (a : addr) (r : role) : bool :=
   | Some None => false
   | None => dflt
   end.
-(* "holds the role" as a requirement (unobserved pairs cannot be refuted) *)
-Definition ob_has (o : obs) (a : addr) (r : role) : bool := ob_has_or true o a r.
+(* "holds the role" as a requirement: a pair outside the observed universe does NOT count as holding it
+   (calls naming accounts / roles outside the universe are rejected as malformed: [call_wf]) *)
+Definition ob_has (o : obs) (a : addr) (r : role) : bool := ob_has_or false o a r.
+
+(* ---------------- well-formedness of header, observations and calls (checked, not assumed) ---------------- *)
+Definition mem_n (x : N) (l : list N) : bool := existsb (N.eqb x) l.
+Definition in_upto (n x : N) : bool := N.leb 1 x && N.leb x n.
+Definition pair_eqb (x y : N * N) : bool := N.eqb (fst x) (fst y) && N.eqb (snd x) (snd y).
+(* an observation lists exactly the declared ids, (account, role) pairs, roles and tags, in order *)
+Definition obs_shape (ids : list id) (naddr nroles : N) (tags : list N) (o : obs) : bool :=
+  list_eqb N.eqb (map fst (o_ops o)) ids
+  && list_eqb pair_eqb (map fst (o_has o)) (flat_map (fun r => map (fun a => (a, r)) (upto naddr)) (upto nroles))
+  && list_eqb N.eqb (map fst (o_cnt o)) (upto nroles)
+  && list_eqb N.eqb (map fst (o_mem o)) (upto nroles)
+  && list_eqb N.eqb (map fst (o_radmin o)) (upto nroles)
+  && list_eqb N.eqb (map fst (o_runs o)) tags.
+(* every id of the measured table is observed *)
+Definition tbl_in (ids : list id) (tbl : list (op * id)) : bool := forallb (fun p => mem_n (snd p) ids) tbl.
+(* accounts, roles and executors named by a call lie inside the observed universe; a call that attaches an
+   authorisation of the controller has its own argument vector in the measured table *)
+Definition metas_wf (naddr : N) (ms : list meta) : bool :=
+  forallb (fun m => match m_exec m with Some x => in_upto naddr x | None => true end) ms.
+Definition authz_wf (naddr : N) (avs : list (argv * N)) (c : call) : bool :=
+  match a_self (authz_of c) with
+  | Some se => metas_wf naddr (se_metas se) && match avs_get avs (argv_of c) with Some _ => true | None => false end
+  | None => true
+  end.
+Definition call_wf (naddr nroles : N) (avs : list (argv * N)) (c : call) : bool :=
+  authz_wf naddr avs c &&
+  match c with
+  | ScheduleOp _ _ p _ => in_upto naddr p
+  | ExecuteOp _ x _ _ => match x with Some e => in_upto naddr e | None => true end
+  | CancelOp _ k _ => in_upto naddr k
+  | GrantRole a r k _ | RevokeRole a r k _ => in_upto naddr a && in_upto nroles r && in_upto naddr k
+  | RenounceRole r k _ => in_upto nroles r && in_upto naddr k
+  | SetRoleAdmin r ar _ => in_upto nroles r && in_upto nroles ar
+  | TransferAdmin new _ _ => in_upto naddr new
+  | CheckAuth metas _ _ => metas_wf naddr metas
+  | UpdateDelay _ _ | AcceptAdmin _ | RenounceAdmin _ | Advance _ => true
+  end.
 Definition ob_count (o : obs) (r : role) : Z :=
   match alist_get r (o_cnt o) with Some n => n | None => 0 end.
 
@@ -207,8 +247,7 @@ Section Monitor.
         on_eqb (o_admin before) (Some k)
         || match alist_get r (o_radmin before) with
            | Some (Some ar) => ob_has before k ar
-           | Some None => false
-           | None => true                                  (* role outside the observed universe *)
+           | _ => false
            end
     | _ => true
     end.
@@ -250,12 +289,25 @@ Section Monitor.
     && list_eqb (fun x y => N.eqb (fst x) (fst y) && (snd x =? snd y)) (o_cnt before) (o_cnt after)
     && list_eqb (fun x y => N.eqb (fst x) (fst y) && list_eqb N.eqb (snd x) (snd y)) (o_mem before) (o_mem after)
     && list_eqb N.eqb (o_existing before) (o_existing after).
-  (* only entries of role r may differ *)
-  Definition roles_same_except (r : role) (before after : obs) : bool :=
-    list_eqb (fun x y => has_eqb x y || (N.eqb (snd (fst x)) r && N.eqb (snd (fst y)) r && N.eqb (fst (fst x)) (fst (fst y))))
-             (o_has before) (o_has after)
-    && list_eqb (fun x y => N.eqb (fst x) (fst y) && ((snd x =? snd y) || N.eqb (fst x) r)) (o_cnt before) (o_cnt after)
-    && list_eqb (fun x y => N.eqb (fst x) (fst y) && (list_eqb N.eqb (snd x) (snd y) || N.eqb (fst x) r)) (o_mem before) (o_mem after).
+  (* only the named (account, role) pair may change: every other (account, role) keeps its entry (inside the
+     touched role: keeps holding / not holding it - swap-and-pop may renumber), the member count of the role
+     moves by [delta], its enumeration and the list of existing roles change at most by the named item *)
+  Definition held (v : option Z) : bool := match v with Some _ => true | None => false end.
+  Definition has_same_except (r : role) (a : addr) (x y : addr * role * option Z) : bool :=
+    N.eqb (fst (fst x)) (fst (fst y)) && N.eqb (snd (fst x)) (snd (fst y))
+    && (if N.eqb (snd (fst x)) r
+        then N.eqb (fst (fst x)) a || Bool.eqb (held (snd x)) (held (snd y))
+        else oz_eqb (snd x) (snd y)).
+  Definition set_same_except (a : N) (l1 l2 : list N) : bool :=
+    forallb (fun x => N.eqb x a || mem_n x l2) l1 && forallb (fun x => N.eqb x a || mem_n x l1) l2.
+  Definition roles_changed_only_at (r : role) (a : addr) (delta : Z) (before after : obs) : bool :=
+    list_eqb (has_same_except r a) (o_has before) (o_has after)
+    && list_eqb (fun x y => N.eqb (fst x) (fst y)
+                            && (if N.eqb (fst x) r then snd y =? snd x + delta else snd x =? snd y)) (o_cnt before) (o_cnt after)
+    && list_eqb (fun x y => N.eqb (fst x) (fst y)
+                            && (if N.eqb (fst x) r then set_same_except a (snd x) (snd y) else list_eqb N.eqb (snd x) (snd y)))
+                (o_mem before) (o_mem after)
+    && set_same_except r (o_existing before) (o_existing after).
   Definition radmin_same (before after : obs) : bool :=
     list_eqb (fun x y => N.eqb (fst x) (fst y) && on_eqb (snd x) (snd y)) (o_radmin before) (o_radmin after).
 
@@ -269,9 +321,9 @@ Section Monitor.
         | _ => on_eqb (o_admin after) (o_admin before)
         end)
     && (match c with
-        | GrantRole a r _ _ => roles_same_except r before after && ob_has after a r
-        | RevokeRole a r _ _ => roles_same_except r before after && ob_has before a r
-        | RenounceRole r k _ => roles_same_except r before after && ob_has before k r
+        | GrantRole a r _ _ => roles_changed_only_at r a (if ob_has before a r then 0 else 1) before after && ob_has after a r
+        | RevokeRole a r _ _ => roles_changed_only_at r a (-1) before after && ob_has before a r
+        | RenounceRole r k _ => roles_changed_only_at r k (-1) before after && ob_has before k r
         | _ => roles_same before after
         end)
     && (match c with
@@ -287,9 +339,24 @@ Section Monitor.
   Definition same_keys {A B} (l1 : list (N * A)) (l2 : list (N * B)) : bool :=
     list_eqb N.eqb (map fst l1) (map fst l2).
 
-  Definition obs_step_ok (before : obs) (e : event) : option (list Timelock.call) :=
+  (* the pending admin offer as it follows from the observed successful transfer_admin_role calls
+     (host rules for temporary entries, Lib/Host.v); there is no getter for it *)
+  Definition pend_after (pend : option (tentry addr)) (now : Z) (c : call) : option (tentry addr) :=
+    match c with
+    | TransferAdmin new lu _ =>
+        match transfer_role (hcfg cf) now pend new lu with
+        | Ok p => p
+        | Fail => Some {| tval := new; tlive := Z.max lu now |}
+        end
+    | AcceptAdmin _ => None
+    | _ => pend
+    end.
+
+  Variables (ids : list id) (naddr nroles : N) (tags : list N) (avs : list (argv * N)).
+
+  Definition obs_step_ok (pend : option (tentry addr)) (before : obs) (e : event) : option (list Timelock.call) :=
     let '(c, out, after) := e in
-    if negb (obs_coherent after) then None
+    if negb (obs_coherent after && obs_shape ids naddr nroles tags after && call_wf naddr nroles avs c) then None
     else match out with
          | Fail => if obs_eqb after before then Some [] else None
          | Ok r =>
@@ -305,6 +372,15 @@ Section Monitor.
                     && forallb (op_step_ok c executed before) (o_ops after)
                     && effects_ok c before after
                     && (match c with
+                        | AcceptAdmin _ =>
+                            (* only the account a (still live) transfer_admin_role named becomes admin *)
+                            match tget (o_now before) pend with
+                            | Some pa => on_eqb (o_admin after) (Some pa)
+                            | None => false
+                            end
+                        | _ => true
+                        end)
+                    && (match c with
                         | ScheduleOp o d _ _ =>
                             on_eqb r (Some (hash o)) && match o_min before with Some m => m <=? d | None => false end
                         | _ => on_eqb r None
@@ -313,13 +389,14 @@ Section Monitor.
              end
          end.
 
-  Record mst := MS { m_prev : obs; m_ghost : ghost }.
+  Record mst := MS { m_prev : obs; m_ghost : ghost; m_pend : option (tentry addr) }.
 
   Definition mon_step (m : mst) (e : event) : option mst :=
-    match obs_step_ok (m_prev m) e with
+    match obs_step_ok (m_pend m) (m_prev m) e with
     | Some tcs =>
         match gfeed hash (m_ghost m) (o_now (m_prev m)) (o_min (m_prev m)) tcs with
-        | Some g => Some (MS (snd e) g)
+        | Some g => Some (MS (snd e) g
+                            (if is_ok (snd (fst e)) then pend_after (m_pend m) (o_now (m_prev m)) (fst (fst e)) else m_pend m))
         | None => None
         end
     | None => None
@@ -335,16 +412,22 @@ Section Monitor.
     end.
 End Monitor.
 
-(* the first observation: nothing scheduled, no target run *)
+(* the first observation: well-shaped, nothing scheduled, no target run, the constructor's minimum delay and
+   admin, no role admins (the initial role membership is compared by the diff only) *)
 Definition obs0_ok (h : header) : bool :=
-  obs_coherent (h_obs0 h) && (o_now (h_obs0 h) =? h_now h)
+  obs_coherent (h_obs0 h) && obs_shape (h_ids h) (h_naddr h) (h_nroles h) (h_tags h) (h_obs0 h)
+  && (o_now (h_obs0 h) =? h_now h)
+  && oz_eqb (o_min (h_obs0 h)) (Some (h_min h))
+  && on_eqb (o_admin (h_obs0 h)) (Some (match h_admin h with Some a => a | None => self (h_cfg h) end))
+  && forallb (fun p => match snd p with None => true | Some _ => false end) (o_radmin (h_obs0 h))
   && forallb (fun p => v_ledger (snd p) =? 0) (o_ops (h_obs0 h))
   && forallb (fun p => snd p =? 0) (o_runs (h_obs0 h)).
 
 Definition monitor (t : trace) : N :=
   let '(h, evs) := t in
-  if tbl_ok (h_tbl h) && avs_ok (h_avs h) && obs0_ok h && N.leb 3 (h_nroles h)
-  then mon_from (hash_of (h_tbl h)) (aid_of (h_avs h)) (h_cfg h) (MS (h_obs0 h) []) evs 0%N
+  if tbl_ok (h_tbl h) && avs_ok (h_avs h) && tbl_in (h_ids h) (h_tbl h) && obs0_ok h && N.leb 3 (h_nroles h)
+  then mon_from (hash_of (h_tbl h)) (aid_of (h_avs h)) (h_cfg h) (h_ids h) (h_naddr h) (h_nroles h) (h_tags h) (h_avs h)
+                (MS (h_obs0 h) [] None) evs 0%N
   else 1%N.
 
 
@@ -469,3 +552,86 @@ Example ex_bad_check_auth_short :
   monitor (ex_hdr, ex_events [ex_sched; Advance 2]
                    ++ [(CheckAuth [] [CtxC 1 10 5] [], OkN, ex_obs (ex_run [ex_sched; Advance 2]))]) = 3%N.
 Proof. vm_compute. reflexivity. Qed.
+
+(* ---------------- review findings: formerly accepted, now rejected ---------------- *)
+(* admin changes hands through accept_admin_transfer although no transfer was ever made *)
+Example ex_bad_accept_without_offer :
+  monitor (ex_hdr, [(AcceptAdmin (AZ [4%N] None []), OkN,
+     ex_obs (with_acs ex_s0 {| admin := Some 4%N; pending := None; members := members (acs ex_s0); radmin := []; existing := existing (acs ex_s0) |}))]) = 1%N.
+Proof. vm_compute. reflexivity. Qed.
+(* transfer_admin_role(4) is scheduled, waited for and consumed; then account 2, which was NOT named, becomes admin *)
+Definition rv_opT := Op 1 14 7 0 0.
+Definition rv_tblB := [(ex_opA, 1%N); (rv_opT, 2%N)].
+Definition rv_avsB := [(AV_u32 5, 5%N); (AV_u32 6, 6%N); (AV_transfer 4%N 5000, 7%N)].
+Definition rv_hdrB := model_header ex_cf 100 2 [2%N] [3%N] None [1%N; 2%N] 4%N 3%N [1%N] rv_tblB rv_avsB ex_s0.
+Definition rv_schedT := ScheduleOp rv_opT 2 2 (AZ [2%N] None []).
+Definition rv_doT := TransferAdmin 4 5000 (AZ [] (Some (SE (CtxC 1 14 7) [] [Meta 0 0 (Some 3%N)])) [(3%N, rv_opT)]).
+Definition rv_sB (cs : list call) := run (hash_of rv_tblB) (aid_of rv_avsB) ex_cf ex_s0 cs.
+Definition rv_admin_is (s : state) (a : addr) : state :=
+  with_acs s {| admin := Some a; pending := None; members := members (acs s); radmin := radmin (acs s); existing := existing (acs s) |}.
+Example ex_bad_accept_by_unnamed_account :
+  monitor (rv_hdrB, model_events rv_hdrB ex_s0 [rv_schedT; Advance 2; rv_doT]
+                    ++ [(AcceptAdmin (AZ [2%N] None []), OkN, observe rv_hdrB (rv_admin_is (rv_sB [rv_schedT; Advance 2; rv_doT]) 2%N))]) = 4%N
+  /\ (* the named account is accepted ... *)
+  check (rv_hdrB, model_events rv_hdrB ex_s0 [rv_schedT; Advance 2; rv_doT; AcceptAdmin (AZ [4%N] None [])]) = (0, 0, 0)%N
+  /\ (* ... but not after its offer has expired *)
+  monitor (rv_hdrB, model_events rv_hdrB ex_s0 [rv_schedT; Advance 2; rv_doT; Advance 4900]
+                    ++ [(AcceptAdmin (AZ [4%N] None []), OkN, observe rv_hdrB (rv_admin_is (rv_sB [rv_schedT; Advance 2; rv_doT; Advance 4900]) 4%N))]) = 5%N.
+Proof. vm_compute. repeat split. Qed.
+(* a consuming grant_role also changes another membership of the same role *)
+Definition rv_opG := Op 1 11 8 0 0.
+Definition rv_opP := Op 1 11 9 0 0.
+Definition rv_tbl2 := [(ex_opA, 1%N); (rv_opG, 2%N); (rv_opP, 3%N)].
+Definition rv_avs2 := [(AV_u32 5, 5%N); (AV_u32 6, 6%N); (AV_role 4%N 2%N 1%N, 8%N); (AV_role 4%N 1%N 1%N, 9%N)].
+Definition rv_hdr2 := model_header ex_cf 100 2 [2%N] [3%N] None [1%N; 2%N; 3%N] 4%N 3%N [1%N] rv_tbl2 rv_avs2 ex_s0.
+Definition rv_run2 := run (hash_of rv_tbl2) (aid_of rv_avs2) ex_cf ex_s0.
+Definition rv_sched (o : op) := ScheduleOp o 2 2 (AZ [2%N] None []).
+Definition rv_selfau (c : ctx) (o : op) := AZ [] (Some (SE c [] [Meta (pred o) (salt o) (Some 3%N)])) [(3%N, o)].
+Definition rv_grantG := GrantRole 4 2 1 (rv_selfau (CtxC 1 11 8) rv_opG).
+Definition rv_grantP := GrantRole 4 1 1 (rv_selfau (CtxC 1 11 9) rv_opP).
+Definition rv_pre := [rv_sched rv_opG; rv_sched rv_opP; Advance 2].
+Definition rv_members (s : state) (m : list (role * list addr)) : state :=
+  with_acs s {| admin := admin (acs s); pending := None; members := m; radmin := []; existing := existing (acs s) |}.
+Example ex_bad_collateral_grant :
+  check (rv_hdr2, model_events rv_hdr2 ex_s0 (rv_pre ++ [rv_grantG; rv_grantP])) = (0, 0, 0)%N
+  /\ (* grant_role(4, EXECUTOR) also makes account 2 an executor *)
+  monitor (rv_hdr2, model_events rv_hdr2 ex_s0 rv_pre
+      ++ [(rv_grantG, OkN, observe rv_hdr2 (rv_members (rv_run2 (rv_pre ++ [rv_grantG])) [(1%N, [2%N]); (3%N, [2%N]); (2%N, [3%N; 4%N; 2%N])]))]) = 4%N
+  /\ (* grant_role(4, PROPOSER) also removes the only legitimate proposer *)
+  monitor (rv_hdr2, model_events rv_hdr2 ex_s0 rv_pre
+      ++ [(rv_grantP, OkN, observe rv_hdr2 (rv_members (rv_run2 (rv_pre ++ [rv_grantP])) [(1%N, [4%N]); (3%N, [2%N]); (2%N, [3%N])]))]) = 4%N.
+Proof. vm_compute. repeat split. Qed.
+(* accounts / roles outside the observed universe do not count as holding a role: the call is malformed *)
+Example ex_bad_outside_universe :
+  monitor (rv_hdr2, [(ScheduleOp rv_opG 2 9 (AZ [9%N] None []), OkI 2, observe rv_hdr2 (rv_run2 [rv_sched rv_opG]))]) = 1%N
+  /\ monitor (ex_hdr, [(GrantRole 4 9 2 (AZ [2%N] None []), OkN, ex_obs ex_s0)]) = 1%N.
+Proof. vm_compute. split; reflexivity. Qed.
+(* observations without the role getters (executors configured would silently read as "none") *)
+Definition rv_strip (o : obs) : obs := Obs9 (o_now o) (o_min o) (o_ops o) (o_admin o) [] [] [] [] (o_existing o) (o_runs o).
+Example ex_bad_stripped_observation :
+  monitor (Hdr9 ex_cf 100 2 [2%N] [3%N] None [1%N] 4%N 3%N [1%N] ex_tbl ex_avs 0 1 (rv_strip (ex_obs ex_s0)), []) = 1%N
+  /\ monitor (ex_hdr, [(Advance 0, OkN, rv_strip (ex_obs ex_s0))]) = 1%N.
+Proof. vm_compute. split; reflexivity. Qed.
+(* an authorisation of the controller for a call whose argument vector is not in the measured table *)
+Example ex_bad_unknown_argument_vector :
+  let opZ := Op 1 10 1000000 0 0 in
+  monitor (Hdr9 ex_cf 100 2 [2%N] [3%N] None [1%N] 4%N 3%N [1%N] [(opZ, 1%N)] ex_avs 0 1 (ex_obs ex_s0),
+     [(UpdateDelay 7 (AZ [] (Some (SE (CtxC 1 10 1000000) [] [Meta 0 0 (Some 3%N)])) [(3%N, opZ)]), Bad, ex_obs ex_s0)]) = 1%N.
+Proof. vm_compute. reflexivity. Qed.
+(* a getter trapped *)
+Example ex_bad_trapping_getter :
+  monitor (ex_hdr, [(Advance 0, OkN,
+     Obs9 100 (Some 2) [(1%N, OV9 0 Unset false false false false true)] (o_admin (ex_obs ex_s0)) (o_has (ex_obs ex_s0))
+          (o_cnt (ex_obs ex_s0)) (o_mem (ex_obs ex_s0)) (o_radmin (ex_obs ex_s0)) (o_existing (ex_obs ex_s0)) (o_runs (ex_obs ex_s0)))]) = 1%N.
+Proof. vm_compute. reflexivity. Qed.
+
+(* small runs for the non-vacuity Examples of Properties/C09.v *)
+Definition nv_opE := Op 1 11 8 0 0.                      (* grant_role(controller, EXECUTOR, controller) *)
+Definition nv_tbl := [(ex_opA, 1%N); (nv_opE, 2%N)].
+Definition nv_avs := [(AV_u32 5, 5%N); (AV_role 1%N 2%N 1%N, 8%N)].
+Definition nv_run (execs : list addr) (cs : list call) : list bool :=
+  match construct ex_cf 100 2 [2%N] execs None with
+  | Ok s0 => map (fun e => is_ok (snd (fst e)))
+               (model_events (model_header ex_cf 100 2 [2%N] execs None [1%N; 2%N] 4%N 3%N [1%N] nv_tbl nv_avs s0) s0 cs)
+  | Fail => []
+  end.
